@@ -502,11 +502,7 @@ def eval_case(ctx, exe, case, oracle_bits=11):
             mv.append({"kind": kind, "model": k, "text": b})
         if k in capped:
             out["findings"].append({"key": "range-cap", "model": k, "bits": m["bits"], "text": "; ".join(capped[k])[:300]})
-        # known classes: (1) cl1 returns kode 0 with a violated dissolve/precipitate constraint; (2) the range LP failed
-        if any(v["kind"] == "sign" for v in mv):
-            out["findings"].append({"key": "cl1-sign-check-dead", "model": k, "bits": m["bits"],
-                                    "text": "; ".join(v["text"] for v in mv if v["kind"] == "sign")[:300]})
-            mv = [v for v in mv if v["kind"] not in ("sign", "range")]
+        # known class: the range LP failed (cl1 kode != 0 inside range())
         if rerr[k] is None and any(v["kind"] == "range" for v in mv):
             out["corr"].append({"what": "printed output has no table for this model; range errors cannot be attributed", "model": k})
         if rerr[k]:
@@ -674,9 +670,7 @@ def run(ctx):
                 seen_findings[fnd["key"]] += 1
                 continue
             seen_findings[fnd["key"]] = 1
-            what = {"cl1-sign-check-dead": "a reported model violates a dissolve/precipitate constraint (cl1 returned kode 0; its "
-                                           "dis/pre post-check compares against x_arg which is never filled)",
-                    "range-cap": "a reported value beyond the -range limit (default 1000) lies outside its reported min..max "
+            what = {"range-cap": "a reported value beyond the -range limit (default 1000) lies outside its reported min..max "
                                  "(the range LPs minimise |x -/+ range_max|; documented limit)",
                     "range-lp-error": "range(): cl1 returned kode != 0 ('Error in subroutine range'), min/max are reported anyway "
                                       "and do not bracket the value"}[fnd["key"]]
@@ -761,6 +755,5 @@ MANIFEST = dict(
          "counters of solve_inverse; -minimal antichain on reported bit sets.",
     note="Trusted: Lean kernel, harness/ph_inverse.cpp (friend access, resolution of reaction tokens to rows), tools/props/c18.py "
          "(tolerances: matrix 1e-12 rel, balances max(1e-8, 1e4*toler), ranges max(1e-6, 1e4*toler)). cl1 is an oracle (not verified); "
-         "isotope rows/columns are not modelled (ex18-type problems are counted only); INVERSE_CL1MP is not compiled in. Findings on the "
-         "unchanged tree: cl1-sign-check-dead, range-lp-error.",
+         "isotope rows/columns are not modelled (ex18-type problems are counted only); INVERSE_CL1MP is not compiled in. Known finding: range-lp-error.",
 )
